@@ -10,6 +10,7 @@ import (
 	"verifsim/core"
 	"verifsim/orch"
 	_ "verifsim/worlda"
+	_ "verifsim/worldp"
 )
 
 func main() {
